@@ -1,0 +1,30 @@
+//go:build verif
+// +build verif
+
+package app
+
+import (
+	"net/http"
+
+	"github.com/kubewharf/apiserver-runtime/pkg/scheme"
+	"k8s.io/apiserver/pkg/authentication/authenticator"
+	"k8s.io/apiserver/pkg/authorization/authorizer"
+	genericapiserver "k8s.io/apiserver/pkg/server"
+
+	"github.com/kubewharf/kubegateway/pkg/clusters"
+)
+
+// VerifBuildProxyHandler returns the real proxy handler chain built by
+// buildProxyHandlerChainFunc on top of a default generic apiserver config.
+// Verification-only hook (build tag verif).
+func VerifBuildProxyHandler(mgr clusters.Manager, authn authenticator.Request, authz authorizer.Authorizer, accessLog bool) http.Handler {
+	cfg := genericapiserver.NewConfig(scheme.Codecs)
+	cfg.RequestInfoResolver = genericapiserver.NewRequestInfoResolver(cfg)
+	cfg.Authentication.Authenticator = authn
+	cfg.Authorization.Authorizer = authz
+	o := &proxyHandlerOptions{
+		clusterManager:  mgr,
+		enableAccessLog: accessLog,
+	}
+	return buildProxyHandlerChainFunc(o)(http.NotFoundHandler(), cfg)
+}
